@@ -183,6 +183,18 @@ def check_obligations(pid):
     }
 
 
+def run_coqchk(pid):
+    """Independent re-check of Properties/<pid>.vo and everything it depends on (thorough tier)."""
+    cmd = 'ulimit -s unlimited 2>/dev/null; timeout 2400 coqchk -silent -o -Q %s CPL CPL.Properties.%s' % (COQ, pid)
+    t0 = time.time()
+    r = subprocess.run(cmd, shell=True, capture_output=True, text=True, cwd=COQ)
+    out = r.stdout + r.stderr
+    m = re.search(r'\* Axioms:(.*?)\n\s*\n\* Constants', out, re.S)
+    axioms = ' '.join(m.group(1).split()) if m else 'unparsed'
+    return {'ok': r.returncode == 0, 'axioms': axioms, 'wall_s': round(time.time() - t0, 1),
+            'cmd': 'coqchk -silent -o -Q coq CPL CPL.Properties.%s' % pid, 'tail': out[-600:] if r.returncode else ''}
+
+
 _MIS = re.compile(r'=\s*\[(.*?)\]\s*:\s*list nat', re.S)
 
 
@@ -442,6 +454,15 @@ def run_property(pid, tier, seed, replay=None):
             'coq_errors': coq_errors[:3]})
         violations.append((path, ' no-failing-input-found'))
 
+    # ---- thorough tier: independent checker over the compiled property file and its dependencies
+    chk = None
+    if tier == 'thorough' and not replay and not build_failed and obl['ok'] and not getattr(mod, 'OWN_COQCHK', False):
+        chk = run_coqchk(pid)
+        if not chk['ok'] and not violations:
+            path = write_replay('coqchk', {'what': 'coqchk rejects Properties/%s.vo' % pid, 'failing': chk['cmd'],
+                                           'output_tail': chk['tail'], 'theorems': obl['theorems']})
+            violations.append((path, ' no-failing-input-found'))
+
     # ---- evidence
     wall = time.time() - t0
     n_thm = len(obl['theorems'])
@@ -472,6 +493,7 @@ def run_property(pid, tier, seed, replay=None):
             'samples': samples,
             'extra': [f for f in extra if f.get('info')],
             'notes': notes + list(getattr(mod, 'NOTES', [])),
+            'coqchk': chk,
         },
         'assumptions': list(getattr(mod, 'ASSUMPTIONS', [])),
         'wall_s': round(wall, 2),
